@@ -33,9 +33,10 @@ type File struct {
 }
 
 type Prog struct {
-	Dir      string
-	Bin      string
-	BuildLog string
+	Dir        string
+	Bin        string
+	BuildLog   string
+	lastStderr string
 }
 
 type Case struct {
@@ -88,10 +89,16 @@ import (
 	"github.com/a-h/templ"
 )
 
+func strp(s string) *string { return &s }
+func boolp(b bool) *bool    { return &b }
+
+// identical to tgen.AttrSets
 var attrSets = []templ.Attributes{
 	{},
 	{"data-a": "1", "hidden": true, "skip": false},
 	{"title": "q\"<&'", "p": (*string)(nil), "kv": templ.KV("v", true), "kb": templ.KV(true, false)},
+	{"a1": templ.KV(false, true), "a2": templ.KV(true, true), "a3": templ.KV(false, false), "a4": templ.KV("x<y", false), "a5": templ.KV("", true)},
+	{"b1": boolp(true), "b2": boolp(false), "b3": (*bool)(nil), "b4": strp("s&t"), "b5": func() bool { return true }, "b6": func() bool { return false }, "b7": 42},
 }
 
 type tfn = func(s0, s1 string, b0, b1 bool, xs []string, c0 templ.Component, at templ.Attributes) templ.Component
@@ -205,7 +212,34 @@ func hx(s string) string {
 }
 
 // Run renders every case and returns one result string per case ("OK:<bytes>" or "ERR:<line>:<col>:<bytes>").
+// If the probe process dies (fatal error, stack overflow, deadlock), every case is re-run in a process of its own
+// and the ones that kill it are reported as "CRASH:<last lines of stderr>".
 func (p *Prog) Run(cases []Case) ([]string, error) {
+	res, err := p.runBatch(cases)
+	if err == nil || len(cases) <= 1 {
+		return res, err
+	}
+	out := make([]string, len(cases))
+	for i, c := range cases {
+		r, err := p.runBatch([]Case{c})
+		if err != nil || len(r) != 1 {
+			out[i] = "CRASH:" + lastLines(p.lastStderr, 6)
+			continue
+		}
+		out[i] = r[0]
+	}
+	return out, nil
+}
+
+func lastLines(s string, n int) string {
+	ls := strings.Split(strings.TrimSpace(s), "\n")
+	if len(ls) > n {
+		ls = append(ls[:2:2], ls[len(ls)-n+2:]...)
+	}
+	return strings.Join(ls, " | ")
+}
+
+func (p *Prog) runBatch(cases []Case) ([]string, error) {
 	var in bytes.Buffer
 	for _, c := range cases {
 		var xs []string
@@ -224,9 +258,15 @@ func (p *Prog) Run(cases []Case) ([]string, error) {
 		}
 		fmt.Fprintf(&in, "%s %s %s %s %s %s %d\n", c.Template, hx(c.Args.S0), hx(c.Args.S1), b(c.Args.B0), b(c.Args.B1), xj, c.Args.At)
 	}
-	cmd := exec.Command(p.Bin)
+	cmd := exec.Command("timeout", "120", p.Bin)
 	cmd.Stdin = &in
+	var stderr bytes.Buffer
+	cmd.Stderr = &stderr
 	out, err := cmd.Output()
+	p.lastStderr = stderr.String()
+	if len(p.lastStderr) > 4000 {
+		p.lastStderr = p.lastStderr[:2000] + " ... " + p.lastStderr[len(p.lastStderr)-1500:]
+	}
 	if err != nil {
 		return nil, fmt.Errorf("probe run: %v", err)
 	}
@@ -322,6 +362,41 @@ func Env(f File, a tgen.Args) string {
 		its = append(its, astser.List(b...))
 	}
 	items = append(items, kv(tgen.ForExpr, astser.List(astser.Atom("iter"), astser.List(its...))))
+	// expressions spelled over several lines: keyed by their exact text, valued by the vocabulary entry of the text with
+	// white space runs collapsed
+	seen := map[string]bool{}
+	addSpelled := func(x string) {
+		norm := strings.Join(strings.Fields(x), " ")
+		if norm == x || seen[x] {
+			return
+		}
+		seen[x] = true
+		if e, ok := strEntry(x, norm, a, nil); ok {
+			items = append(items, e)
+		}
+	}
+	var walkAttrs func(as []parser.Attribute)
+	walkAttrs = func(as []parser.Attribute) {
+		for _, at := range as {
+			switch at := at.(type) {
+			case parser.ExpressionAttribute:
+				addSpelled(at.Expression.Value)
+				if at.Name == "class" {
+					x := at.Expression.Value
+					norm := strings.TrimSuffix(strings.Join(strings.Fields(x), " "), ",")
+					if norm != x && !seen["class:"+x] {
+						seen["class:"+x] = true
+						if v, ok := tgen.ClassVal(norm, a); ok {
+							items = append(items, kv("class:"+x, sv(v)))
+						}
+					}
+				}
+			case parser.ConditionalAttribute:
+				walkAttrs(at.Then)
+				walkAttrs(at.Else)
+			}
+		}
+	}
 	// switch nodes
 	var walk func(ns []parser.Node)
 	walk = func(ns []parser.Node) {
@@ -336,7 +411,10 @@ func Env(f File, a tgen.Args) string {
 				idx := tgen.SwitchIndex(cs, a)
 				items = append(items, kv("switch:"+n.Expression.Value+"@"+strconv.Itoa(int(n.Expression.Range.From.Index)), astser.List(astser.Atom("idx"), astser.Atom(strconv.Itoa(idx)))))
 			case parser.Element:
+				walkAttrs(n.Attributes)
 				walk(n.Children)
+			case parser.StringExpression:
+				addSpelled(n.Expression.Value)
 			case parser.IfExpression:
 				walk(n.Then)
 				for _, e := range n.ElseIfs {
